@@ -32,6 +32,15 @@ Property clause → theorem  (model: `Comdex/Model/Liquidation.lean`, both gener
       target = principal + fee, `TotalBorrowed` / `TotalLend` / lend position reduced by exactly what left),
       `C09.flagged_borrow_is_backed`, `C09.failing_step_leaves_no_writes`; generation-1 borrow sell-off:
       `C09.v1_selloff_records` and — FALSE for the transfers — `C09.v1_selloff_can_exceed_collateral_counterexample` (D33).
+* generation-1 borrows end to end (sweep `LiquidateBorrows`, message `MsgLiquidateBorrow`, sell-off, auction start)
+    → `C09.v1_borrow_safe_never_seized` (sweep: safe or kill-switched borrows keep their record; message: w.r.t. its OWN test; the two
+      tests coincide outside e-mode), FALSE for e-mode pairs under the message: `C09.v1_msg_borrow_ignores_emode_counterexample` (D35,
+      replayed on the real code), `C09.v1_borrow_seizure_effect` (exactly one locked vault and one lend auction, amounts, custody).
+* "opens exactly one auction for it", for every auction type the whitelisting can select, and nothing seized when none is
+    → `C09.auction_type_follows_whitelisting`; the messages that seize nobody: `C09.external_liquidation_touches_no_position`;
+      `MsgLiquidateInternalKeeper` = step + keeper mark: `C09.keeper_message_is_step_plus_mark`.
+* liveness when governance changes the batch size mid-sweep → `C09.sweep_live_varbatch_partial` (any positive sizes; the block
+  that covers index `i` comes at most `i` blocks after the sweep start), `C09.zero_batch_processes_nothing` (why `> 0` is validated).
 * accrual: `C09.vault_safe_after_accrual_not_seized`, `C09.vault_decision_is_on_recorded_debt` (the vault decision ignores
   interest not yet booked), `C09.borrow_decision_after_accrual`.
 * emergency controls and whitelisting: `C09.safe_never_seized` now carries `GuardsOff` for every removed vault and the kill
